@@ -8,22 +8,64 @@ def gen_cases(prop, tier, seed, n, profiles=None, frameworks=None, key_hostile=F
     for i in range(n):
         rng = rng_for(prop, seed, i)
         jc = gen.json_case(rng, profile=rng.choice(profiles) if profiles else None)
-        if i % 25 == 11:
-            # several objects of one shape (one merge group) whose list / dict field was seen empty, null-only and filled in turn
-            variants = [[], [None], [1], [], [None, None], ["s"], [1.5], [[]], [{}]]
-            dvariants = [{}, {"k1": None}, {"k1": 1}, {}, {"k1": "s"}]
-            def leaf():
-                return {"x": rng.choice(variants), "m": rng.choice(dvariants), "k": 1, "n": "s"}
-            smp = {"a": [leaf() for _ in range(rng.randint(1, 3))], "b": leaf(), "c": leaf()}
-            if rng.random() < 0.5:
-                smp["d"] = {"inner": leaf()}
-            jc = {"profile": "mergelists", "samples": [smp] + ([{"b": leaf()}] if rng.random() < 0.4 else [])}
+        sp = special_case(rng, i)
+        if sp is not None:
+            jc = sp
         opts = gen.options(rng, jc["samples"], frameworks=frameworks)
-        if jc["profile"] == "mergelists":
-            opts["dkr"] = [r"k\d+"]
+        adjust_opts(jc, opts)
         models = [["Root", jc["samples"]]] + maybe_second_root(rng, jc["samples"], jc["profile"])
         cases.append({"i": i, "profile": jc["profile"], "models": models, "opts": opts})
     return cases
+
+
+def special_case(rng, i):
+    """sub-workloads aimed at specific code paths (shared by C01-C04 and C03's own generator); None for ordinary cases"""
+    if i % 25 == 11:
+        # several objects of one shape (one merge group) whose list / dict field was seen empty, null-only and filled in turn
+        variants = [[], [None], [1], [], [None, None], ["s"], [1.5], [[]], [{}]]
+        dvariants = [{}, {"k1": None}, {"k1": 1}, {}, {"k1": "s"}]
+        def leaf():
+            return {"x": rng.choice(variants), "m": rng.choice(dvariants), "k": 1, "n": "s"}
+        smp = {"a": [leaf() for _ in range(rng.randint(1, 3))], "b": leaf(), "c": leaf()}
+        if rng.random() < 0.5:
+            smp["d"] = {"inner": leaf()}
+        return {"profile": "mergelists", "samples": [smp] + ([{"b": leaf()}] if rng.random() < 0.4 else [])}
+    elif i % 40 == 17:
+        # names of merged models: two same-shaped objects merge into a model named after both keys ('Billing_Shipping') next
+        # to a model whose own key is the concatenation of the two ('billingShipping', 'billing_shipping', ...)
+        k1, k2 = sorted(rng.sample(["billing", "shipping", "home", "work", "source", "target", "alpha", "beta"], 2))
+        shape = {"street": "s", "zip": 1, "city": "x", "geo": [1.5]}
+        joined = rng.choice([k1 + k2.capitalize(), k1 + "_" + k2, k1.capitalize() + k2.capitalize(), k1 + "-" + k2, k2 + k1.capitalize()])
+        smp = {k1: dict(shape), k2: dict(shape, zip=2), joined: {"flag": True, "n": 1.5}, "id": 1}
+        if rng.random() < 0.3:
+            smp = {"order": smp}
+        return {"profile": "mergenames", "samples": [smp]}
+    elif i % 150 == 5:
+        # deep documents: list nesting up to 190 (CPython refuses more than 200 nested brackets in an annotation), object chains up
+        # to 96 levels (CPython refuses more than 100 indentation levels, which bounds the nested layout); distinct keys per level
+        # keep the model graph a tree
+        if rng.random() < 0.5:
+            v = rng.choice([1, [1, 2.5], "s", {"a": 1}, [], None])
+            for _ in range(rng.choice([40, 120, 190])):
+                v = [v]
+            smp = {"deep": v, "k": 1}
+        else:
+            d = rng.choice([30, 60, 93, 96])
+            v = {"leaf": rng.choice([1, "s", [1]])}
+            for lvl in reversed(range(d)):
+                v = {f"k{lvl}": v, "n": lvl}
+            smp = v
+        return {"profile": "deep", "samples": [smp]}
+    return None
+
+
+def adjust_opts(jc, opts):
+    if jc["profile"] == "mergelists":
+        opts["dkr"] = [r"k\d+"]
+    if jc["profile"] == "mergenames" and not any(m[0] == "exact" or (m[0] == "percent" and m[1] <= 100) for m in opts["merge"]):
+        opts["merge"] = list(opts["merge"]) + [["exact"]]
+    if jc["profile"] == "deep":
+        opts["merge"], opts["dkr"], opts["dkf"] = [], [], []
 
 
 def maybe_second_root(rng, samples, profile, p=0.15):
